@@ -386,6 +386,105 @@ pub fn space_s(k: usize, inner: usize, f: &mut dyn FnMut(u64, &[u8])) -> u64 {
     idx
 }
 
+// ---------------------------------------------------------------------------------------------
+// W: wide simultaneous assignments (DESIGN §2.3): k data cells rotated inside a counted loop, so
+// that one loop iteration becomes a single simultaneous assignment with up to k+1 live values
+// (> 11 of them => stack temporaries in the JIT). Layout: c0 counter, c1 carrier, c2.. data.
+
+pub const W_FORMS: [&str; 8] = [
+    "[-<+>]",            // copy (default)
+    "[-<++>]",           // x2
+    "[-<+++>]",          // x3
+    "[-<->]",            // negate
+    "[-<+<+>>]",         // shared: also added to the cell two to the left
+    "[-<+<+>>]<+++++>",  // shared + constant
+    "[-<+>]<+++++>",     // + constant
+    "[---<+>]",          // divide by 3 (trip count through the 2-adic inverse: huge immediates at 64 bit)
+];
+
+pub const W_SCRIPTS: [&[u8]; 3] = [
+    &[3, 5, 7, 11, 13, 17, 19, 23, 29, 31, 37, 41, 43, 47, 53, 59, 61, 67],
+    &[255, 128, 2, 1, 254, 127, 129, 3, 64, 192, 85, 170, 250, 6, 9, 100, 200, 33],
+    &[3, 6, 9, 12, 15, 18, 21, 24, 27, 30, 33, 36, 39, 42, 45, 48, 51, 54],
+];
+
+pub fn w_program(k: usize, forms: &[usize]) -> Vec<u8> {
+    // forms[i] is the form used when moving data cell i+1 into data cell i (i = 0..k-1)
+    let mut p = Vec::new();
+    let has_div = forms.iter().any(|&f| f == 7);
+    p.extend_from_slice(if has_div { b"+" } else { b"++" });
+    p.extend_from_slice(b">>");
+    for _ in 0..k {
+        p.extend_from_slice(b",>");
+    }
+    for _ in 0..k + 2 {
+        p.push(b'<');
+    }
+    // loop
+    p.extend_from_slice(b"[->>[-<+>]");
+    for f in forms.iter().take(k - 1) {
+        p.push(b'>');
+        p.extend_from_slice(W_FORMS[*f].as_bytes());
+    }
+    // pointer is on data cell k-1 (absolute k+1); go back to the carrier (absolute 1)
+    for _ in 0..k {
+        p.push(b'<');
+    }
+    p.extend_from_slice(b"[-");
+    for _ in 0..k {
+        p.push(b'>');
+    }
+    p.push(b'+');
+    for _ in 0..k {
+        p.push(b'<');
+    }
+    p.extend_from_slice(b"]<]>>");
+    for _ in 0..k {
+        p.extend_from_slice(b".>");
+    }
+    p
+}
+
+/// W with at most `max_dev` deviations from the default form, for the given sizes.
+pub fn space_w_sized(ks: &[usize], max_dev: usize, f: &mut dyn FnMut(u64, &[u8])) -> u64 {
+    let mut idx = 0u64;
+    for &k in ks {
+        let n = k - 1;
+        let mut forms = vec![0usize; n.max(1)];
+        f(idx, &w_program(k, &forms));
+        idx += 1;
+        if max_dev >= 1 {
+            for i in 0..n {
+                for a in 1..W_FORMS.len() {
+                    forms[i] = a;
+                    f(idx, &w_program(k, &forms));
+                    idx += 1;
+                    if max_dev >= 2 {
+                        for j in i + 1..n {
+                            for b in 1..W_FORMS.len() {
+                                forms[j] = b;
+                                f(idx, &w_program(k, &forms));
+                                idx += 1;
+                            }
+                            forms[j] = 0;
+                        }
+                    }
+                }
+                forms[i] = 0;
+            }
+        }
+    }
+    idx
+}
+
+pub fn space_w(full: bool, f: &mut dyn FnMut(u64, &[u8])) -> u64 {
+    if full {
+        space_w_sized(&[2, 3, 5, 8, 10, 11, 12, 13, 14, 15, 16], 2, f)
+    } else {
+        space_w_sized(&[2, 3, 11, 12, 13, 14], 1, f)
+    }
+}
+
 /// K: the repository's own corpus, copied into /verif/corpus (name \t program per line).
 pub fn space_k() -> Vec<(String, Vec<u8>)> {
     let path = format!("{}/corpus/k_tests.txt", crate::verif_dir());
